@@ -53,8 +53,20 @@ func ruleFilterOps(r *Report) {
 		okArgs := true
 		var closure *ssa.Function
 		var unionSel *bool // the per-block step of Union is chosen before the call (a φ of two functions)
-		for _, c := range callsToDeep(fn, false, "(*column.Txn).rangeReadPair") {
+		loops := pairLoops(r)
+		loopNames := pairLoopNames(r)
+		if loops["(*column.Txn).rangeReadPair"] == nil {
+			loopNames = append(loopNames, "(*column.Txn).rangeReadPair")
+		}
+		narrowOnly := "" // a loop on the way that skips blocks whose selection is empty
+		for _, c := range callsToDeep(fn, false, loopNames...) {
 			cc, _, _ := callCommon(c.Inner)
+			if pl := loops[fnName(originOf(cc.StaticCallee()))]; pl != nil && pl.Skips {
+				narrowOnly = fnName(pl.Fn)
+				if !pl.SkipSel {
+					okArgs = false
+				}
+			}
 			// the per-block step: a literal, a named function or method value, possibly handed down
 			// through a helper's parameter; a choice between two (φ) contributes both
 			fv, _ := normE(cc.Args[2], c.Env, false)
@@ -102,6 +114,17 @@ func ruleFilterOps(r *Report) {
 			}
 		}
 		sort.Strings(ops)
+		if narrowOnly != "" {
+			// the loop leaves out blocks of the selection: equivalent for steps that cannot add a row
+			// to a block (And, AndNot), wrong for a step that can (Or)
+			for _, o := range ops {
+				if o != "And" && o != "AndNot" {
+					okArgs = false
+					ops = append(ops, "through "+narrowOnly+", which skips blocks")
+					break
+				}
+			}
+		}
 		h.Check(okArgs && strings.Join(ops, ",") == strings.Join(w.ops, ","), name+"/op", r.P.Pos(fn.Pos()), "selection "+strings.Join(w.ops, "/")+" column", fmt.Sprintf("the per-block step applies %v to (selection, column) — expected exactly %v on (dst, src)", ops, w.ops))
 		clears := callsWhere(fn, func(_ ssa.Instruction, c2 *ssa.CallCommon) bool {
 			if !methodOn(c2, "github.com/kelindar/bitmap", "Bitmap", "Clear") {
@@ -141,7 +164,7 @@ func ruleFilterOps(r *Report) {
 				cc, _, _ := callCommon(ins)
 				if cc == nil {
 					if st, isSt := ins.(*ssa.Store); isSt {
-						if ia, isIA := st.Addr.(*ssa.IndexAddr); isIA && isBitmap(ia.X.Type()) {
+						if ia, isIA := st.Addr.(*ssa.IndexAddr); isIA && (isBitmap(ia.X.Type()) || isWordStore(ia.X.Type())) {
 							if c, isC := constInt(st.Val); isC && c == 0 && reachAvoiding(ins.Block(), ins.Block(), nil, nil) {
 								zeroSite = site
 							}
@@ -1673,4 +1696,19 @@ func ruleTTLNames(r *Report) {
 	}
 	visit(fn, nil, 0)
 	h.Check(okR && okW, "(*column.Txn).TTL", r.P.Pos(fn.Pos()), "reader and writer both on \"expire\"", "the TTL accessor does not read and write the expire column")
+}
+
+// isWordStore: a []uint64 or *[N]uint64 — the storage under a scratch bitmap kept as a plain array.
+func isWordStore(t types.Type) bool {
+	var el types.Type
+	switch u := t.Underlying().(type) {
+	case *types.Slice:
+		el = u.Elem()
+	case *types.Pointer:
+		if a, ok := u.Elem().Underlying().(*types.Array); ok {
+			el = a.Elem()
+		}
+	}
+	b, ok := el.(*types.Basic)
+	return ok && b.Kind() == types.Uint64
 }
